@@ -39,7 +39,7 @@ package handlers
 // Announcements from a peer are ignored until it is verified; requests it triggers are recorded as
 // untrusted (C14's AddRequest contract: an untrusted call never sets the trusted mark).
 //@ func (*UntrustedInvHandler).Handle
-//@   serves C12 C14
+//@   serves C12 C14 C07
 //@   opt nomonitor = 1
 //@   opt partial = 1
 //@   requires handler != nil && handler.state != nil && handler.memPool != nil && handler.tracker != nil
@@ -56,10 +56,10 @@ package handlers
 
 // A transaction from an untrusted peer enters the pipeline marked untrusted and unconfirmed.
 //@ func (*UntrustedTXHandler).Handle
-//@   serves C12
+//@   serves C12 C07
 //@   opt nomonitor = 1
 //@   requires handler != nil && handler.txChannel != nil
-//@   assert enters_untrusted at call Add : [C12] !arg1.Trusted && arg1.ConfirmedHeight == -1
+//@   assert enters_untrusted at call Add : [C12 C07] !arg1.Trusted && arg1.ConfirmedHeight == -1
 //@   ensures isolated: [C12] isolated()
 
 //@ func (*UntrustedVersionHandler).Handle
@@ -86,7 +86,7 @@ package handlers
 
 // An extended message is handed to one of the two handlers the ExtendedHandler was built with.
 //@ func (*ExtendedHandler).Handle
-//@   serves C12
+//@   serves C12 C07
 //@   opt partial = 1
 //@   requires handler != nil
 //@   assert dispatch_own at call Handle : [C12] arg0 == handler.blockHandler || arg0 == handler.txHandler
@@ -95,14 +95,14 @@ package handlers
 // handler bound to the connection's own (untrusted) state; the extended-message handler forwards
 // to the same transaction handler as the plain tx command; no trusted-side handler is reachable.
 //@ func NewUntrustedMessageHandlers
-//@   serves C12
-//@   ensures tx: [C12] typeis(result[wire.CmdTx], *UntrustedTXHandler)
-//@   ensures inv: [C12] typeis(result[wire.CmdInv], *UntrustedInvHandler) && as(result[wire.CmdInv], *UntrustedInvHandler).state == untrustedState
+//@   serves C12 C07
+//@   ensures tx: [C12 C07] typeis(result[wire.CmdTx], *UntrustedTXHandler)
+//@   ensures inv: [C12 C07] typeis(result[wire.CmdInv], *UntrustedInvHandler) && as(result[wire.CmdInv], *UntrustedInvHandler).state == untrustedState
 //@   ensures headers: [C12] typeis(result[wire.CmdHeaders], *UntrustedHeadersHandler) && as(result[wire.CmdHeaders], *UntrustedHeadersHandler).state == untrustedState
 //@   ensures version: [C12] typeis(result[wire.CmdVersion], *UntrustedVersionHandler) && as(result[wire.CmdVersion], *UntrustedVersionHandler).state == untrustedState
-//@   ensures extended: [C12] typeis(result[wire.CmdExtended], *ExtendedHandler) && as(result[wire.CmdExtended], *ExtendedHandler).txHandler == result[wire.CmdTx]
+//@   ensures extended: [C12 C07] typeis(result[wire.CmdExtended], *ExtendedHandler) && as(result[wire.CmdExtended], *ExtendedHandler).txHandler == result[wire.CmdTx]
 //@        && as(result[wire.CmdExtended], *ExtendedHandler).blockHandler == result[wire.CmdBlock]
-//@   ensures no_trusted_handler: [C12] forall(k string, has(result, k) ==> !typeis(result[k], *TXHandler) && !typeis(result[k], *InvHandler) && !typeis(result[k], *HeadersHandler) && !typeis(result[k], *VersionHandler))
+//@   ensures no_trusted_handler: [C12 C07] forall(k string, has(result, k) ==> !typeis(result[k], *TXHandler) && !typeis(result[k], *InvHandler) && !typeis(result[k], *HeadersHandler) && !typeis(result[k], *VersionHandler))
 //@   ensures block: [C12] typeis(result[wire.CmdBlock], *BlockHandler) && as(result[wire.CmdBlock], *BlockHandler).blockRefeeder == nil
 
 // The block handler is shared by both kinds of connection (an untrusted connection reaches the
